@@ -379,6 +379,14 @@ pub fn gen_req(token: u64, rng: &mut Rng, st: &mut GenStats) -> Req {
         codes.dedup();
         labels.sort();
         labels.dedup();
+        // Precedence follows from what a receiver can know: with an unsupported version nothing else in the frame
+        // has a defined meaning, so the answer is the version error; with an unusable query there is no path to look
+        // up, so an invalid query dominates "unknown path".
+        if codes.contains(&1) {
+            codes = vec![1];
+        } else if codes.contains(&3) {
+            codes = vec![3];
+        }
         let label = if labels.len() == 1 { format!("reject-{}", labels[0]) } else { format!("reject-multi({})", labels.join("+")) };
         Expect { label, allowed: codes, dispatched: false, invoked: false, body: ExpBody::Open }
     };
